@@ -33,6 +33,9 @@ func (o *C12) Check(x *h.Exec, ev *h.Event) {
 			if c != nil && c.Offsets != nil && ev.File != "" && f.Name != ev.File {
 				continue
 			}
+			if o.objectItems(x, pi, f, c) {
+				return
+			}
 			for _, off := range x.Offsets(f, c, 1) {
 				q := h.Query{Kind: "hover", Path: pi, File: f.Name, Off: off, Order: orderFor(c, uint64(off)+3)}
 				r := x.Run(q)
